@@ -70,6 +70,17 @@ class M:
         return None
 
     def cond(self, c):
+        if isinstance(c, ast.BoolOp) and isinstance(c.op, ast.Or) and ast.unparse(c) not in self.flag_exprs:
+            parts = [self.cond(v) for v in c.values]
+            out = parts[-1]
+            for p_ in reversed(parts[:-1]):
+                out = f"(BOr {p_} {out})"
+            return out
+        if self.members is not None and isinstance(c, ast.UnaryOp) and isinstance(c.op, ast.Not) and isinstance(c.operand, ast.Name) \
+                and c.operand.id == self.members:
+            return "BMembersEmpty"
+        if self.members is not None and ast.unparse(c) == f"self.has_simplex({self.members})":
+            return "BHasSimplexMembers"
         if isinstance(c, ast.BoolOp) and isinstance(c.op, ast.And):
             parts = [self.cond(v) for v in c.values]
             out = parts[-1]
@@ -139,6 +150,12 @@ class M:
                 self.uid = None
                 out.append(f"(SBindUid {rest})")
                 return "[" + "; ".join(out) + "]"
+            # idx = next(self._edge_uid) if not idx else idx  (the parameter is rebound; a falsy id counts as "not given")
+            if isinstance(st, ast.Assign) and len(st.targets) == 1 and isinstance(st.targets[0], ast.Name) and self.idx is not None \
+                    and st.targets[0].id == self.idx and ast.unparse(st.value) == f"next(self._edge_uid) if not {self.idx} else {self.idx}":
+                rest = self.block(stmts[i + 1:])
+                out.append(f"(SRebindIdxFalsy {rest})")
+                return "[" + "; ".join(out) + "]"
             # uid = next(self._edge_uid) if idx is None else idx ; the rest of the block is its scope
             if isinstance(st, ast.Assign) and len(st.targets) == 1 and isinstance(st.targets[0], ast.Name) and self.idx is not None \
                     and self.uid is None and ast.unparse(st.value) == f"next(self._edge_uid) if {self.idx} is None else {self.idx}":
@@ -165,6 +182,11 @@ class M:
                                                              or (isinstance(b[1], ast.Continue) and self.item_mode)):
                     gs.append(f"({self.cond(st.test)}, GWarnReturn)")
                     continue
+            if isinstance(st, ast.If) and not st.orelse and len(st.body) == 1 and (
+                    (isinstance(st.body[0], ast.Return) and st.body[0].value is None and not self.item_mode)
+                    or (isinstance(st.body[0], ast.Continue) and self.item_mode)):
+                gs.append(f"({self.cond(st.test)}, GReturn)")
+                continue
             if self.item_mode and ast.unparse(st) == DECODE_MEMBERS:
                 continue          # input decoding: the interpreter is handed list(members) and set(members)
             return gs, stmts[i:]
@@ -215,6 +237,8 @@ class M:
                 return f"(SClearAttr {t})"
             if ast.unparse(st.value.func.value) == "self._net_attr":
                 return "SClearNet"
+        if isinstance(st, ast.Expr) and ast.unparse(st.value) in getattr(self, "calls", {}):
+            return f"(SCall {self.calls[ast.unparse(st.value)]})"
         if isinstance(st, ast.Delete) and len(st.targets) == 1:
             s = self.sub(st.targets[0], TABLES)
             if s:
